@@ -207,9 +207,9 @@ func mapCatalogue() []*big.Int {
 	half := inv(big.NewInt(2))
 	// candidates for exceptional cases: 1+2u^2 = 0 (inv0), s = -1 via x1 or x2, t = 0
 	cands := []*big.Int{
-		mod(new(big.Int).Neg(half)), // u^2 = -1/2
-		mod(new(big.Int).Mul(new(big.Int).Sub(J, big.NewInt(1)), half)),                     // x1 = -1
-		mod(new(big.Int).Mul(inv(new(big.Int).Sub(J, big.NewInt(1))), half)),                // x2 = -1
+		mod(new(big.Int).Neg(half)),                                                       // u^2 = -1/2
+		mod(new(big.Int).Mul(new(big.Int).Sub(J, big.NewInt(1)), half)),                   // x1 = -1
+		mod(new(big.Int).Mul(inv(new(big.Int).Sub(J, big.NewInt(1))), half)),              // x2 = -1
 		mod(new(big.Int).Mul(new(big.Int).Sub(new(big.Int).Neg(J), big.NewInt(1)), half)), // 1+2u^2 = -J
 		mod(new(big.Int).Mul(new(big.Int).Sub(inv(J), big.NewInt(1)), half)),
 	}
